@@ -562,6 +562,8 @@ def tasks_for(tier, seed):
                 for method in ("spline", "dct"):
                     if tier == "quick" and method == "dct" and not _dct_small(nR, nZ):
                         continue
+                    if method == "dct" and nR * nZ > 9000:
+                        continue  # 129x129 dct: the bare object covers it (cost)
                     for orient in ("inc", "dec"):
                         ts.append(dict(kind="field", obj="tok", orient=orient, func=fn, nR=nR, nZ=nZ,
                                        method=method, phase=list(ph)))
